@@ -231,6 +231,46 @@ def r5_with_meta_pure_and_exact(ctx):
            witness="(meta (with-meta (with-meta [1] {:a 1}) nil)) => {:a 1}")
 
 
+@rule("C04.R10", floor=4)
+def r10_every_sequential_collection_has_an_nth_arm(ctx):
+    """nth (and with it sequential destructuring and rand-nth) dispatches on the type of the
+    collection through functools.singledispatch.  Every persistent collection class that is
+    sequential -- declares ISequential among its ancestors -- has to be covered by an arm: the class
+    itself or one of its (transitive, by-name) base classes is registered.  An uncovered class
+    falls to the base function, which raises TypeError for it."""
+    rt = "src/basilisp/lang/runtime.py"
+    reg = P.singledispatch_registry(ctx.py(rt), "nth")
+    if "default" not in reg:
+        raise AnalysisError("anchor vanished: runtime.nth (singledispatch base)")
+    registered = {k.split(".")[-1].split("[")[0] for k in reg if k != "default"}
+    # by-name class graph over interfaces.py and the collection modules
+    bases = {}
+    for rel in [IFACE, *FILES]:
+        for c in ast.walk(ctx.py(rel)):
+            if isinstance(c, ast.ClassDef):
+                bases[c.name] = [P.un(b).split("[")[0].split(".")[-1] for b in c.bases]
+
+    def ancestors_of(name, seen=None):
+        seen = seen if seen is not None else set()
+        for b in bases.get(name, []):
+            if b not in seen:
+                seen.add(b)
+                ancestors_of(b, seen)
+        return seen
+    n = 0
+    for rel, cls in _classes(ctx):
+        anc = ancestors_of(cls.name)
+        if "ISequential" not in anc:
+            continue
+        n += 1
+        cover = sorted(({cls.name} | anc) & registered)
+        ctx.ob("C04.R10", f"{rt}::nth::{cls.name} is covered by a registered arm", rt, reg["default"].lineno, bool(cover),
+               "" if cover else f"{cls.name} is sequential but neither it nor any of its base classes ({', '.join(sorted(anc & {'ISeq', 'IIndexed', 'Sequence', 'IPersistentList', 'IPersistentVector'})) or 'none of the registered kinds'}) is registered with nth: (nth coll i) and [a b] destructuring raise TypeError",
+               witness="(nth (queue [:a :b :c]) 1) => TypeError")
+    if n < 3:
+        raise AnalysisError(f"only {n} sequential collection classes found")
+
+
 @rule("C04.R9", floor=3)
 def r9_pop_stays_in_its_collection_type(ctx):
     """pop of a vector, list or queue is a value of the same collection type (the model's sequence
@@ -368,6 +408,8 @@ def r7_runtime_ops_do_not_return_their_input_blindly(ctx):
 
 
 SELFTEST = [
+    {"name": "nth has no arm for queues (the repaired defect)", "file": RT, "expect": "C04.R10",
+     "old": "@nth.register(lqueue.PersistentQueue)\n", "new": ""},
     {"name": "list pop hands out rest (the repaired defect)", "file": "src/basilisp/lang/list.py", "expect": "C04.R9",
      "old": "        return PersistentList(self._inner.rest)\n", "new": "        return cast(PersistentList, self.rest)\n", "nth": 1},
     {"name": "with-meta ignores nil metadata (the repaired defect)", "file": "src/basilisp/core.lpy", "expect": "C04.R5",
